@@ -123,7 +123,12 @@ func serviceAttrTable() []attrGen {
 		{"oom_score_adj", 1, integer(-500, 500), ""},
 		{"mem_swappiness", 1, integer(0, 100), ""},
 		{"cpu_percent", 1, integer(1, 100), ""},
-		{"memswap_limit", 1, str(byteSizes...), ""},
+		{"memswap_limit", 1, func(g *mgen, _ string) any {
+			if g.coin("unlimited", 1, 4) {
+				return -1 // unlimited swap
+			}
+			return g.pick("s", byteSizes...)
+		}, ""},
 		{"shm_size", 1, str(byteSizes...), ""},
 		{"stop_grace_period", 1, str(durations...), ""},
 		{"cap_add", 2, list("NET_ADMIN", "SYS_TIME", "SYS_PTRACE", "ALL"), ""},
